@@ -23,11 +23,12 @@ func init() {
 			"(R9) a lifecycle routine that panics is reported as failed, never as a success (the hand-over obligations of C06-R1 for startCtrlFn): a module whose start panicked must not count as started. " +
 			"(R10) a pass that failed is reported: Start/Shutdown/ManageModules return the error of every prepare/start/stop pass (= C06-R9) and the passes never forget an error a module reported (= C06-R12) - 'returns without error' is what the statement ties the online set to; " +
 			"(R11) Shutdown runs stopModules on every path on which it claimed the shutdown flag - also when the initial start never completed; " +
+			"(R12) Module.Enable / Disable update the module's own enabled flag on every path (being enabled as a dependency does not replace the request); " +
 			"NOT decided: real interleavings of concurrently starting modules, exactly-once stop over all histories, panics inside routines (C06).",
 		Rules: []ruleFn{c01R1, c01R2, c01R3, c01R4, c01R5, c01R6, func(c *Ctx, r *Report) { stopCompletionRule(c, r, "C01-R7") },
 			func(c *Ctx, r *Report) { stopSequenceRule(c, r, "C01-R8") },
 			borrowRule(c06R1, "C06-R1", "C01-R9", 1, func(s string) bool { return strings.Contains(s, "startCtrlFn") }),
-			borrowRule(c06R9, "C06-R9", "C01-R10", 5, nil), borrowRule(c06R12, "C06-R12", "C01-R10", 9, nil), c01R11},
+			borrowRule(c06R9, "C06-R9", "C01-R10", 5, nil), borrowRule(c06R12, "C06-R12", "C01-R10", 9, nil), c01R11, c01R12},
 	})
 }
 
